@@ -36,8 +36,9 @@ def glencoe_fragment(rng, n_feat):
                 if budget[0] > 0:
                     budget[0] -= 1
                     mand.append({'min': 1, 'max': 1, 'children': [mk(budget, depth + 1)]})
-            # the reader puts the mandatory companions first
-            f['relations'] = mand + [grp]
+            # the reader puts the mandatory companions first; a model built by hand may have the group first or in between
+            pos = rng.randint(0, len(mand))
+            f['relations'] = mand[:pos] + [grp] + mand[pos:]
         return f
     return {'root': mk([n_feat], 0), 'ctcs': []}
 
